@@ -425,6 +425,158 @@ func legacyPoolFields() [][3]string {
 	return rows
 }
 
+// visitorPathFacts: the visitor accept path (visitor connection -> InternalListener -> proxy accept loop).
+func visitorPathFacts() [][2]string {
+	b := func(v bool) string {
+		if v {
+			return "true"
+		}
+		return "false"
+	}
+	fset := token.NewFileSet()
+	funcOf := func(file, recvType, name string) *ast.FuncDecl {
+		f, err := parser.ParseFile(fset, filepath.Join(tx.Repo, file), nil, 0)
+		if err != nil {
+			return nil
+		}
+		for _, d := range f.Decls {
+			fd, ok := d.(*ast.FuncDecl)
+			if !ok || fd.Body == nil || fd.Name.Name != name || fd.Recv == nil || len(fd.Recv.List) != 1 {
+				continue
+			}
+			if selPathType(fd.Recv.List[0].Type) == recvType {
+				return fd
+			}
+		}
+		return nil
+	}
+	// F1: PutConn on a closed listener returns an error: recover-wrapped send on acceptCh, "if err != nil { return <error> }", Close closes acceptCh
+	f1 := false
+	if put := funcOf("pkg/util/net/listener.go", "InternalListener", "PutConn"); put != nil {
+		wrapped, retErr := false, false
+		for i, st := range put.Body.List {
+			as, ok := st.(*ast.AssignStmt)
+			if ok && len(as.Rhs) == 1 && len(as.Lhs) == 1 {
+				if call, ok := as.Rhs[0].(*ast.CallExpr); ok && strings.HasSuffix(selPath(call.Fun), "PanicToError") && len(call.Args) == 1 {
+					if fl, ok := call.Args[0].(*ast.FuncLit); ok {
+						ast.Inspect(fl.Body, func(n ast.Node) bool {
+							if ss, ok := n.(*ast.SendStmt); ok {
+								if sx, ok := ss.Chan.(*ast.SelectorExpr); ok && sx.Sel.Name == "acceptCh" {
+									wrapped = true
+								}
+							}
+							return true
+						})
+					}
+					errName := selPath(as.Lhs[0])
+					if i+1 < len(put.Body.List) {
+						if ifs, ok := put.Body.List[i+1].(*ast.IfStmt); ok {
+							if be, ok := ifs.Cond.(*ast.BinaryExpr); ok && be.Op == token.NEQ && selPath(be.X) == errName && selPath(be.Y) == "nil" && len(ifs.Body.List) > 0 {
+								if rs, ok := ifs.Body.List[len(ifs.Body.List)-1].(*ast.ReturnStmt); ok && len(rs.Results) == 1 && selPath(rs.Results[0]) != "nil" {
+									retErr = true
+								}
+							}
+						}
+					}
+				}
+			}
+		}
+		closesCh := false
+		if cl := funcOf("pkg/util/net/listener.go", "InternalListener", "Close"); cl != nil {
+			ast.Inspect(cl.Body, func(n ast.Node) bool {
+				if c, ok := n.(*ast.CallExpr); ok {
+					if id, ok := c.Fun.(*ast.Ident); ok && id.Name == "close" && len(c.Args) == 1 && strings.HasSuffix(selPath(c.Args[0]), ".acceptCh") {
+						closesCh = true
+					}
+				}
+				return true
+			})
+		}
+		f1 = wrapped && retErr && closesCh
+	}
+	// F2: Manager.NewConn hands PutConn's result to its caller (assigned to the named result err, or returned)
+	f2 := false
+	if nc := funcOf("server/visitor/visitor.go", "Manager", "NewConn"); nc != nil {
+		resName := ""
+		if nc.Type.Results != nil && len(nc.Type.Results.List) == 1 && len(nc.Type.Results.List[0].Names) == 1 {
+			resName = nc.Type.Results.List[0].Names[0].Name
+		}
+		calls, good := 0, 0
+		ast.Inspect(nc.Body, func(n ast.Node) bool {
+			switch v := n.(type) {
+			case *ast.AssignStmt:
+				if len(v.Rhs) == 1 {
+					if c, ok := v.Rhs[0].(*ast.CallExpr); ok && strings.HasSuffix(selPath(c.Fun), ".PutConn") {
+						calls++
+						if len(v.Lhs) == 1 && resName != "" && selPath(v.Lhs[0]) == resName && v.Tok == token.ASSIGN {
+							good++
+						}
+						return false
+					}
+				}
+			case *ast.ReturnStmt:
+				if len(v.Results) == 1 {
+					if c, ok := v.Results[0].(*ast.CallExpr); ok && strings.HasSuffix(selPath(c.Fun), ".PutConn") {
+						calls++
+						good++
+						return false
+					}
+				}
+			case *ast.CallExpr:
+				if strings.HasSuffix(selPath(v.Fun), ".PutConn") {
+					calls++
+				}
+			}
+			return true
+		})
+		f2 = calls == 1 && good == 1
+	}
+	// F3: Service.RegisterVisitorConn returns NewConn's result; F4: handleConnection closes the connection when it fails
+	f3, f4 := false, false
+	if rv := funcOf("server/service.go", "Service", "RegisterVisitorConn"); rv != nil && len(rv.Body.List) > 0 {
+		if rs, ok := rv.Body.List[len(rv.Body.List)-1].(*ast.ReturnStmt); ok && len(rs.Results) == 1 {
+			if c, ok := rs.Results[0].(*ast.CallExpr); ok && strings.HasSuffix(selPath(c.Fun), ".NewConn") {
+				f3 = true
+			}
+		}
+	}
+	if hc := funcOf("server/service.go", "Service", "handleConnection"); hc != nil {
+		ast.Inspect(hc.Body, func(n ast.Node) bool {
+			ifs, ok := n.(*ast.IfStmt)
+			if !ok || ifs.Init == nil {
+				return true
+			}
+			as, ok := ifs.Init.(*ast.AssignStmt)
+			if !ok || len(as.Rhs) != 1 {
+				return true
+			}
+			c, ok := as.Rhs[0].(*ast.CallExpr)
+			if !ok || !strings.HasSuffix(selPath(c.Fun), ".RegisterVisitorConn") || len(c.Args) < 1 {
+				return true
+			}
+			connName := selPath(c.Args[0])
+			be, ok := ifs.Cond.(*ast.BinaryExpr)
+			if !ok || be.Op != token.NEQ || selPath(be.Y) != "nil" {
+				return true
+			}
+			for _, st := range ifs.Body.List {
+				if es, ok := st.(*ast.ExprStmt); ok {
+					if cc, ok := es.X.(*ast.CallExpr); ok && selPath(cc.Fun) == connName+".Close" {
+						f4 = true
+					}
+				}
+			}
+			return false
+		})
+	}
+	return [][2]string{
+		{"InternalListener.PutConn on a closed listener returns an error", b(f1)},
+		{"visitor.Manager.NewConn propagates PutConn's error", b(f2)},
+		{"Service.RegisterVisitorConn returns NewConn's result", b(f3)},
+		{"Service.handleConnection closes the connection when RegisterVisitorConn fails", b(f4)},
+	}
+}
+
 func runPaths() ([]byte, error) {
 	var out bytes.Buffer
 	fmt.Fprintf(&out, "(* generated by translator unit T11send (paths) from server/group/*.go and every WithCompressionFromPool call site; do not edit *)\n")
@@ -458,6 +610,17 @@ func runPaths() ([]byte, error) {
 	fmt.Fprintf(&out, "(* vhost.Muxer.handle: the hand-off send on Listener.accept is recover-wrapped and Close closes accept, or it is a select\n   case next to a receive from a channel Close closes; Listener.Close closes: %s *)\n", strings.Join(closes, ", "))
 	fmt.Fprintf(&out, "Definition gen_vhost_handle_found : bool := %v.\n", found)
 	fmt.Fprintf(&out, "Definition gen_vhost_handoff_released_by_close : bool := %v.\n\n", rel && found)
+	fmt.Fprintf(&out, "(* visitor accept path: visitor connection -> visitor.Manager.NewConn -> InternalListener.PutConn -> proxy accept loop *)\n")
+	fmt.Fprintf(&out, "Definition gen_visitor_path : list (string * bool) := [\n")
+	vrows := visitorPathFacts()
+	for i, r := range vrows {
+		sep := ";"
+		if i == len(vrows)-1 {
+			sep = ""
+		}
+		fmt.Fprintf(&out, "  (%q%%string, %s)%s\n", r[0], r[1], sep)
+	}
+	fmt.Fprintf(&out, "].\n\n")
 	fmt.Fprintf(&out, "(* legacy ini conversion: (target field of the v1 config, source field of the legacy struct, its ini key) *)\n")
 	fmt.Fprintf(&out, "Definition gen_legacy_pool_fields : list (string * string * string) := [\n")
 	lrows := legacyPoolFields()
